@@ -368,7 +368,7 @@ PROPS = {
         "technique": 'TLC model checking of the small-sample definitions + exhaustive replay of all 340 sequences x p grid',
         "title": "with fewer than five observations Quantile returns the exact sample quantile",
         "mc": [MC_QS],
-        "replay": [gen_q("small", "E0,E3,E5,E11")],
+        "replay": [gen_q("small", "E0,E3,E5,E11,E7")],
         "rule": "all 340 sequences of length 1..4 over {0,1,2,3} (every permutation of every multiset) x 31 values of p (sixteenths, "
                 "thirds, every k/n boundary +- 2^-20) and, in the harness, one ulp either side of every boundary; at boundaries that "
                 "are within rounding either adjacent convention is accepted",
@@ -380,7 +380,7 @@ PROPS = {
         "technique": 'TLC invariants of Quantile.tla + replay + TLC trace validation',
         "title": "quantile estimates stay inside the data range and bookkeeping is exact",
         "mc": [MC_BIG, MC_QBIG, MC_Q, MC_QS],
-        "replay": [gen_q("big", "E0,E3,E15", maxlen=("7", "8")), gen_q("big", "E0", maxlen=("12", "13"), alphabet="GenAlphabet01"), gen_q("small", "E0,E11,E15")],
+        "replay": [gen_q("big", "E0,E3,E15", maxlen=("7", "8")), gen_q("big", "E0", maxlen=("12", "13"), alphabet="GenAlphabet01"), gen_q("small", "E0,E11,E15,E7")],
         "trace": [TR_QSTEP, TR_Q],
         "rule": "len/is_empty/p()/NaN-only-when-empty/range/marker order after every observation of every enumerated stream and of "
                 "long recorded streams (validated by TLC as trace invariants); Quantile::new must panic for seven invalid p",
